@@ -19,7 +19,7 @@ def pool(tier):
     return base
 
 
-def strategy(shapes, kinds=None, extra=None, far_mean=False):
+def strategy(shapes, kinds=None, extra=None, far_mean=False, sharp=False):
     """far_mean: in a quarter of the cases the mean of p(x) lies 1e4 / 1e6 standard deviations away from the origin (time
     stamps, absolute positions).  Covariances, precisions and log-determinants of the results do not depend on the mean, so
     they are still judged at their own scale; the property modules skip the log-density comparisons there (information-form
@@ -53,7 +53,23 @@ def strategy(shapes, kinds=None, extra=None, far_mean=False):
             case["x"] = np.asarray(case["x"], float) * g ** 0.5
             case["y"] = np.asarray(case["y"], float) * g ** 0.5
             case["unit_scale"] = g
-        if far_mean and draw(st.sampled_from([False, False, False, True])):
+        if sharp and kind != "nn" and draw(st.sampled_from([False] * 5 + [True])):
+            # sharp, complete observation of a vague prior in the same units: Dy = Dx, a well-conditioned square M and a noise
+            # variance 1e-10 / 1e-14 of the prior's.  Every input matrix keeps its condition number; the posterior covariance is
+            # of the size of the noise, and covariance-form ("gain") updates cancel there while the information form does not.
+            Dy = case["Dy"] = Dx
+            ratio = draw(st.sampled_from([1e-10, 1e-14]))
+            c = draw(gen.cond_params(kind, Rc, Dx, Dx, 10.0))
+            c.pop("past_Sigma0", None)
+            if "M" in c:
+                c["M"] = draw(gen.spd(Rc, Dx, kappa=10.0, lam_lo=0.5, lam_hi=1.0))
+            c["Sigma"] = np.asarray(c["Sigma"], float) * ratio * sx
+            if "b" in c and case.get("unit_scale"):
+                c["b"] = np.asarray(c["b"], float) * case["unit_scale"] ** 0.5
+            case["c"] = c
+            case["y"] = draw(gen.arr((N, Dx), -2.5, 2.5)) * case.get("unit_scale", 1.0) ** 0.5
+            case["sharp"] = ratio
+        if far_mean and not case.get("sharp") and draw(st.sampled_from([False, False, False, True])):
             off = draw(st.sampled_from([1e4, 1e6])) * float(np.sqrt(sx))
             d = draw(gen.arr((Rx, Dx), 0.5, 1.5)) * np.where(draw(gen.arr((Rx, Dx), -1, 1)) < 0, -1.0, 1.0)
             case["px"]["mu"] = np.asarray(case["px"]["mu"], float) + off * d
@@ -68,7 +84,7 @@ def strategy(shapes, kinds=None, extra=None, far_mean=False):
 def labels(case):
     combo = "(1,1)" if case["Rc"] == 1 and case["Rx"] == 1 else ("(1,n)" if case["Rc"] == 1 else "(n,1)")
     reg = "Dx>Dy" if case["Dx"] > case["Dy"] else ("Dx=Dy" if case["Dx"] == case["Dy"] else "Dx<Dy")
-    return [f"kind={case['kind']}", f"combo={combo}", reg, f"ctor={case['c'].get('ctor')}", f"unit_scale={case.get('unit_scale', 1.0):g}"] + (["far_mean"] if case.get("far_mean") else [])
+    return [f"kind={case['kind']}", f"combo={combo}", reg, f"ctor={case['c'].get('ctor')}", f"unit_scale={case.get('unit_scale', 1.0):g}"] + (["far_mean"] if case.get("far_mean") else []) + (["sharp_observation"] if case.get("sharp") else [])
 
 
 def nontrivial(case):
